@@ -70,7 +70,9 @@ Deriv(t, c) ==
     [] t.k = "str"  -> IF Len(t.w) >= 1 /\ t.w[1] = c THEN TStr(Tail(t.w)) ELSE TNone
     [] t.k = "cat2" -> LET d1 == TCat(Deriv(t.a, c), t.b) IN
                        IF Nul(t.a) THEN TAlt(<<d1, Deriv(t.b, c)>>) ELSE d1
-    [] t.k = "loop" -> TCat(Deriv(t.a, c), L(t.a, LRg!ShiftCF(<<t.lo, t.hi>>)))
+    [] t.k = "loop" -> \* mk_loop never builds R^[0,0] (it is eps): the rule below is only sound for hi # 0
+                       IF t.hi = 0 THEN TNone
+                       ELSE TCat(Deriv(t.a, c), L(t.a, LRg!ShiftCF(<<t.lo, t.hi>>)))
     [] t.k = "not"  -> TNot(Deriv(t.a, c))
     [] t.k = "alt"  -> TAlt([i \in 1..Len(t.xs) |-> Deriv(t.xs[i], c)])
     [] t.k = "and"  -> TAnd([i \in 1..Len(t.xs) |-> Deriv(t.xs[i], c)])
